@@ -122,7 +122,8 @@ fn svc_fit<K: Kernel<f64, Vec<f64>> + serde::Serialize>(k: K, case: &SvcCase, se
     let qm = DenseMatrix::from_2d_vec(&all);
     verif_hooks::set_schedule_seed(Some(seed));
     let r = catch(|| {
-        let params = SVCParameters::default().with_c(case.c).with_epoch(case.epoch).with_tol(case.tol).with_kernel(k);
+        // builder calls in two orders (a setter that rebuilds from the defaults would lose earlier settings)
+        let params = if case.x.len() % 2 == 0 { SVCParameters::default().with_c(case.c).with_epoch(case.epoch).with_tol(case.tol).with_kernel(k) } else { SVCParameters::default().with_kernel(k).with_tol(case.tol).with_epoch(case.epoch).with_c(case.c) };
         let m = SVC::fit(&xm, &case.y, params).map_err(|e| e.to_string())?;
         let v = serde_json::to_value(&m).map_err(|e| e.to_string())?;
         let d = m.decision_function(&qm).map_err(|e| e.to_string())?;
@@ -240,7 +241,7 @@ fn svr_fit<K: Kernel<f64, Vec<f64>> + serde::Serialize>(k: K, case: &SvrCase) ->
     all.extend(case.fresh.iter().cloned());
     let qm = DenseMatrix::from_2d_vec(&all);
     catch(|| {
-        let params = SVRParameters::default().with_c(case.c).with_eps(case.eps).with_tol(case.tol).with_kernel(k);
+        let params = if case.x.len() % 2 == 0 { SVRParameters::default().with_c(case.c).with_eps(case.eps).with_tol(case.tol).with_kernel(k) } else { SVRParameters::default().with_kernel(k).with_tol(case.tol).with_eps(case.eps).with_c(case.c) };
         let m = SVR::fit(&xm, &case.y, params).map_err(|e| e.to_string())?;
         let v = serde_json::to_value(&m).map_err(|e| e.to_string())?;
         let p = m.predict(&qm).map_err(|e| e.to_string())?;
